@@ -88,10 +88,17 @@ def case_class(c):
 
 def gen_grants(rng, nt, nops):
     g = []
-    style = rng.below(4)
+    style = rng.below(6)
     n = rng.range(4 * nops, 14 * nops)
     if style == 0:                                  # everybody parked at the hash callback first, then bursts
         g += list(range(nt))
+    if style >= 4:                                  # park one task deep inside its operation (7 grants: a delete at its mark CAS, 8: at its
+        order = rng.shuffle(list(range(nt)))        # unlink CAS), the others behind it (3..4: at a helping / insert CAS), then release one by one
+        g += [order[0]] * rng.choice([5, 6, 7, 7, 8, 8])
+        for t in order[1:]:
+            g += [t] * rng.choice([2, 3, 3, 4, 4, 7])
+        for t in rng.shuffle(order):
+            g += [t] * rng.choice([1, 1, 2, 4])
     while len(g) < n:
         t = rng.below(nt)
         g += [t] * (rng.choice([1, 1, 1, 2, 2, 3, 4]) if style != 3 else rng.choice([1, 1, 2, 6, 9]))
